@@ -10,7 +10,7 @@ export GOFLAGS=-mod=mod GOPROXY=off GOSUMDB=off GOTOOLCHAIN=local
 go build ./... 2>&1 | head -5
 cd /verif
 for p in ${3:-$ID}; do
-  ./bin/sa -prop $p -no-evidence | grep -E "CONTROL-FAIL|checker-integrity" | cut -c1-330
+  ./bin/sa -prop $p -no-evidence | grep -E "CONTROL-FAIL|CONTROL-FLOOR|checker-integrity" | cut -c1-330
   ./bin/sa -prop $p -no-evidence | tail -1
 done
 git -C /repo checkout -- . ; git -C /repo status --porcelain | head -3
